@@ -5,6 +5,7 @@ package c07
 import (
 	"bytes"
 	"fmt"
+	"gitlab.com/gomidi/midi/v2/drivers"
 	"testing"
 
 	"gitlab.com/gomidi/midi/v2"
@@ -174,6 +175,18 @@ type loop struct {
 	send func(midi.Message) error
 	got  [][]byte
 	stop func()
+	out  drivers.Out
+	uses int
+}
+
+// reopen closes the out-port of the loopback and opens it again (what midi.FindOutPort or a
+// sender that reconnects does while the listener stays where it is).
+func (l *loop) reopen() {
+	l.out.Close()
+	var err error
+	if l.send, err = midi.SendTo(l.out); err != nil {
+		panic(err)
+	}
 }
 
 // loopBuf: the sysex buffer size a case's loopback listens with (0 = default). A channel or
@@ -190,13 +203,21 @@ func newLoop(bufSize uint32) *loop {
 	if bufSize > 0 {
 		opts = append(opts, midi.SysExBufferSize(bufSize))
 	}
+	l.out = outs[0]
+	if bufSize == 1 {
+		// the other order of setting up a connection: the sender first
+		if l.send, err = midi.SendTo(outs[0]); err != nil {
+			panic(err)
+		}
+	}
 	l.stop, err = midi.ListenTo(ins[0], func(m midi.Message, ts int32) { l.got = append(l.got, append([]byte{}, m...)) }, opts...)
 	if err != nil {
 		panic(err)
 	}
-	l.send, err = midi.SendTo(outs[0])
-	if err != nil {
-		panic(err)
+	if bufSize != 1 {
+		if l.send, err = midi.SendTo(outs[0]); err != nil {
+			panic(err)
+		}
 	}
 	return l
 }
@@ -312,6 +333,10 @@ func check(c Case, lp *loop) string {
 		lp.got = lp.got[:0]
 		var err error
 		if p := ev.Try(func() {
+			// every 50th use of a connection the out-port is closed and opened again first
+			if lp.uses++; lp.uses%50 == 2 {
+				lp.reopen()
+			}
 			if err = lp.send(prev); err == nil {
 				err = lp.send(m)
 			}
@@ -333,7 +358,7 @@ var predecessors = []midi.Message{
 }
 
 var ctors = ev.NewCheck("C07", "constructors",
-	"exhaustive: NoteOn/NoteOff/NoteOffVelocity/PolyAfterTouch/ControlChange over 16x128x128, ProgramChange/AfterTouch 16x128, Pitchbend 16 x all 65536 int16 values, SPP all 65536, SongSelect and MTC all 256, Tune; plus out-of-range grid channel {16,17,127,128,255} x data {128,129,200,254,255} x in-range partners {0,1,64,127}; before every case the messages of the same and the preceding first argument are constructed and appended to by the caller (results must not share memory); oracle = independent MIDI 1.0 wire table (status nibble|channel, clamped 7-bit data, 14-bit LSB first), no data byte > 127 for any argument, matching accessor returns the (clamped) arguments, every other type-specific accessor of midi.Message and smf.Message (incl. all meta accessors) rejects, derived views by definition, every accessor also with each subset of nil out-parameters (the API fills only non-nil arguments), and loopback through testdrv, directly behind a predecessor message of a rotating constructor kind on the same connection, listening with the default sysex buffer or with one of 1 or 2 bytes, delivers the same bytes (quick: every 16th tuple, thorough: all); non-trivial = some data argument != 0; tuples are distinct by construction",
+	"exhaustive: NoteOn/NoteOff/NoteOffVelocity/PolyAfterTouch/ControlChange over 16x128x128, ProgramChange/AfterTouch 16x128, Pitchbend 16 x all 65536 int16 values, SPP all 65536, SongSelect and MTC all 256, Tune; plus out-of-range grid channel {16,17,127,128,255} x data {128,129,200,254,255} x in-range partners {0,1,64,127}; before every case the messages of the same and the preceding first argument are constructed and appended to by the caller (results must not share memory); oracle = independent MIDI 1.0 wire table (status nibble|channel, clamped 7-bit data, 14-bit LSB first), no data byte > 127 for any argument, matching accessor returns the (clamped) arguments, every other type-specific accessor of midi.Message and smf.Message (incl. all meta accessors) rejects, derived views by definition, every accessor also with each subset of nil out-parameters (the API fills only non-nil arguments), and loopback through testdrv, directly behind a predecessor message of a rotating constructor kind on the same connection, listening with the default sysex buffer or with one of 1 or 2 bytes, sender or listener set up first, the out-port closed and reopened every 50th use while the listener stays, delivers the same bytes (quick: every 16th tuple, thorough: all); non-trivial = some data argument != 0; tuples are distinct by construction",
 	nil, func(c Case) (res ev.Result) {
 		res.Nontrivial = true
 		var lp *loop
